@@ -157,16 +157,37 @@ def r3(fx):
     fx.info['C04.R3 find_version runs'] = n_cases
 
 
-def _encode_stub_env(fx, it, guessed, seg=None):
-    """Environment for interpreting encode() with content abstracted away.  seg: (mode name, encoding) of the content."""
+def _encode_stub_env(fx, it, guessed, seg=None, level=None):
+    """Environment for interpreting encode() with content abstracted away.  seg: (mode name, encoding) of the content.
+    The content 'needs version `guessed` at level `level`': the version search stand-in returns `guessed`, and the content's
+    bit count (asked for by code that tests one version directly) is one more than the capacity of the version below it."""
     md = modes(fx)
     rec = {}
+    cap = C(fx, 'SYMBOL_CAPACITY')
+    lvs = levels(fx)
+    mvs = micro_versions(fx)
+    order = [mvs[v] if v < 1 else v for v in iso.ALL_VERSIONS]
+
+    def blwo(version, eci='<not passed>', is_sa=False):
+        if isinstance(guessed, str):
+            return 10 ** 9
+        lv_ = None if level is None else lvs[level]
+        i = order.index(guessed)
+        below = None
+        for v in reversed(order[:i]):
+            row = cap.get(v, {})
+            # the level asked for; without one, the default level of that version (L, none for M1)
+            key = lv_ if level is not None else (lvs['L'] if lvs['L'] in row else None)
+            if key in row:
+                below = row[key]
+                break
+        return 1 if below is None else below + 1
 
     def prepare_data(content, mode, encoding):
         rec['prepare'] = (mode, encoding)
         if seg is not None:
-            return SegmentsModel([SegModel(md[seg[0]], seg[1])])
-        return SegmentsModel([SegModel(mode if mode is not None else md['byte'], None)])
+            return SegmentsModel([SegModel(md[seg[0]], seg[1])], blwo=blwo)
+        return SegmentsModel([SegModel(mode if mode is not None else md['byte'], None)], blwo=blwo)
 
     def find_version(segments, error, eci, micro, is_sa=False):
         rec['find_version'] = (error, eci, micro, is_sa)
@@ -189,15 +210,17 @@ def r4(fx):
     fn = fx.fn('encoder', 'encode')
     mv = micro_versions(fx)
     it = Interp()
-    for req in (-3, -2, -1, 0, 1, 2, 10, 39, 40):
+    for req, level in [(r, None) for r in (-3, -2, -1, 0, 1, 2, 10, 39, 40)] + [(-2, 'M'), (0, 'Q'), (1, 'M'), (1, 'H'), (2, 'Q'), (10, 'M'), (40, 'H'), (7, 'L')]:
         bad = None
         n = 0
         for guessed in list(iso.ALL_VERSIONS):
-            genv, rec = _encode_stub_env(fx, it, mv[guessed] if guessed < 1 else guessed)
+            if level is not None and level not in iso.levels_of(guessed):
+                continue
+            genv, rec = _encode_stub_env(fx, it, mv[guessed] if guessed < 1 else guessed, level=level)
             f = FuncVal(fn, genv, it)
             micro = None
             try:
-                res = f('<content>', None, f'M{req + 4}' if req < 1 else req, None, None, None, False, micro, True)
+                res = f('<content>', level, f'M{req + 4}' if req < 1 else req, None, None, None, False, micro, False)
                 got = ('version', res[1])
             except PyRaise as e:
                 got = ('raises', e.name)
@@ -205,7 +228,7 @@ def r4(fx):
             n += 1
             if got != want and bad is None:
                 bad = (guessed, got, want)
-        yield ob(f'requested v{req} vs every smallest-fitting version ({n})', bad is None, fn,
+        yield ob(f'requested v{req}{" level " + level if level else ""} vs every smallest-fitting version ({n})', bad is None, fn,
                  got=f'smallest fitting v{bad[0]}: {bad[1]}' if bad else 'exactly the requested version, or DataOverflowError',
                  want=f'{bad[2]}' if bad else 'exactly the requested version, or DataOverflowError')
     # no version requested: the guessed one is passed on; overflow propagates
@@ -244,8 +267,11 @@ def r5(fx):
     for req, guessed in ((None, 7), (10, 7), ('M4', -1)):
         genv, rec = _encode_stub_env(fx, it, guessed)
         FuncVal(fn, genv, it)('<content>', None, req, None, None, None, False, None, True)
-        same = rec.get('_encode_segments') is not None and rec.get('_encode_segments') is rec.get('find_version_segments')
         v = rec.get('_encode', {}).get('version')
+        segs_ = rec.get('_encode_segments')
+        # the fit is established by a version search over the same segments, or by asking the same segments for their bit
+        # count in the very version that is encoded (that the comparison is the right one is R4)
+        same = segs_ is not None and (segs_ is rec.get('find_version_segments') or any(c[0] == v for c in getattr(segs_, 'blwo_calls', ())))
         yield ob(f'encode(version={req}), smallest fitting {guessed}: the segments searched are the segments encoded, version >= result',
                  same and v is not None and v >= guessed, fn, got=f'same segments: {same}, version passed {v}', want=f'same segments, version >= {guessed}')
     from . import p08
@@ -264,33 +290,27 @@ def r6(fx):
 
 
 def sized_equals_written(fx):
-    fn_w = fx.fn('encoder', 'write_segment')
+    """For every version / segment list / eci / Structured Append combination: the number of bits `_encode` has written when it
+    reaches the terminator (real write_segment on a recording buffer, later stages replaced by stand-ins) equals the number the
+    real Segments object - filled through its own add_segment - budgets with bit_length_with_overhead."""
+    from ..interp import Instance
+    from .models import trace_encode
     fn_s = fx.fn('encoder', 'Segments.bit_length_with_overhead')
-    enc = fx.fn('encoder', '_encode')
     lv, mv, md = levels(fx), micro_versions(fx), modes(fx)
-    it = Interp(max_steps=20_000_000)
-    genv = encoder_env(fx.forest, it, get_eci_assignment_number=lambda enc_: 26)
-    ws = FuncVal(fn_w, genv, it)
-    sizer = FuncVal(fn_s, genv, it)
-    vr = genv['version_range']
     default_enc = C(fx, 'DEFAULT_BYTE_ENCODING')
-    # the SA header block of _encode
-    sa_if = [s for s in enc.body if isinstance(s, ast.If) and nf.same_inlined(enc, s.test, 'sa_info is not None')]
-    sa_block = single(sa_if, '`if sa_mode:` block in _encode').body
-
-    SA = SAModel
-    # caller convention of _encode: ver / ver_range
     seglists = [
         [('numeric', None)], [('alphanumeric', None)], [('byte', default_enc)], [('byte', 'utf-8')], [('kanji', None)],
         [('hanzi', None)],
         [('hanzi', None), ('numeric', None), ('hanzi', None)],
         [('byte', 'utf-8'), ('byte', default_enc), ('kanji', None)],
         [('numeric', None), ('byte', 'shift_jis'), ('alphanumeric', None), ('byte', 'utf-8')],
+        [('byte', 'utf-8'), ('numeric', None), ('byte', 'utf-8'), ('kanji', None), ('byte', 'utf-8')],
     ]
-    conv = _caller_convention(fx, enc)
-    n = 0
+    it0 = Interp(max_steps=50_000_000)
+    genv0 = encoder_env(fx.forest, it0, get_eci_assignment_number=lambda enc_: 26)
     for v in iso.ALL_VERSIONS:
         rv = mv[v] if v < 1 else v
+        level = iso.levels_of(v)[0]
         for sl in seglists:
             if any((None if v >= 1 else v) not in iso.SUPPORTED[m] for m, e in sl):
                 continue
@@ -299,16 +319,15 @@ def sized_equals_written(fx):
                     continue
                 for sa in ((False, True) if v >= 1 else (False,)):
                     segs = [SegModel(md[m], e, nbits=13 + 3 * i, char_count=2) for i, (m, e) in enumerate(sl)]
-                    buf = BufModel()
-                    if sa:
-                        it.block(sa_block, dict(genv, buff=buf, sa_info=SA((3, 1, 2, 99))))
-                    ver, ver_range = conv(rv, vr)
-                    for s in segs:
-                        ws(buf, s, ver, ver_range, eci)
-                    written = len(buf)
-                    model = SegmentsModel(segs)
-                    sized = sizer(model, rv, eci, sa)
-                    n += 1
+                    inst = Instance.new(fx.forest, 'encoder', 'Segments', genv0, it0)
+                    for sg in segs:
+                        inst.add_segment(sg)
+                    rec, res, info = trace_encode(fx, rv, level, level, eci=eci, sa_info=SAModel((3, 1, 2, 99)) if sa else None, segments=inst,
+                                                  real_write_segment=True, extra={'get_eci_assignment_number': lambda enc_: 26})
+                    term = [r for r in rec if r[0] == 'write_terminator']
+                    need(len(term) == 1, '_encode: one write_terminator call expected')
+                    written = term[0][3]
+                    sized = inst.bit_length_with_overhead(rv, eci, sa)
                     key = f'v{v} {"+".join(m + ("" if e in (None, default_enc) else "/" + e) for m, e in sl)} eci={eci} sa={sa}'
                     yield Ob(key, written == sized, 'encoder.Segments.bit_length_with_overhead', fn_s.lineno,
                              f'budgeted {sized} bits, written {written} bits', 'equal', True)
